@@ -141,7 +141,7 @@ def run(rep, tier):
     pipelines += [[("tfilter", "int")], [("map", "f"), ("tfilter", "int")], [("tfilter", "int"), ("filter", "p")]]
     if tier == "thorough":
         pipelines += [list(x) for x in itertools.product(stages_all, repeat=3)][::3]
-    consumers = ["collect", "partition", "reduce", "$+", "$*", "$&", "$|", "all", "any", "for", "for-break", "step2"]
+    consumers = ["collect", "partition", "reduce", "$+", "$*", "$&", "$|", "all", "any", "for", "for-break", "step2", "for-outer-names"]
     progs, expect = [], []
     for xs in seqs:
         for source in ("array", "user"):
@@ -207,6 +207,20 @@ def run(rep, tier):
                             body = [["stm", ["if", ["bin", ">", V("x"), I(3)], ["block", ["stm", "break"]], None]]] + body
                         lines.append(["set", "acc", ["expr", ["mut", None, I(0)]]])
                         lines.append(["stm", ["for", "x", e, ["block"] + body]])
+                        lines.append(["set", "res", ["expr", ["pre", "deref", V("acc")]]])
+                    elif cons == "for-outer-names":
+                        # the loop body reads outer (run-time) variables whose names the iterator
+                        # implementations use for their own locals: it must see its own
+                        acc = 0
+                        for x in it:
+                            acc = wrap(acc + x + 1000 + 2000 + 3000 + 4000)
+                        res = f"(i {acc})"
+                        lines.append(["fndecl", "hid", [["n", "int"]], "int", [ret(V("n"))]])
+                        for nm, val in (("i", 1000), ("res", 2000), ("value", 3000), ("con", 4000)):
+                            lines.append(["set", nm, ["expr", ["call", V("hid"), I(val)]]])
+                        lines.append(["set", "acc", ["expr", ["mut", None, I(0)]]])
+                        lines.append(["stm", ["for", "x", e, ["block",
+                                      E(["bin", "+=", V("acc"), ["bin", "+", ["bin", "+", ["bin", "+", ["bin", "+", V("x"), V("i")], V("res")], V("value")], V("con")]])]]])
                         lines.append(["set", "res", ["expr", ["pre", "deref", V("acc")]]])
                     elif cons == "step2":
                         # laziness: creating the pipeline pulls nothing; two pulls examine only what they need
